@@ -153,6 +153,71 @@ def fmt_es(es):
     return "[" + ", ".join("x" if not valid(e) else "%d/%d" % (e[0] - B, e[1]) for e in es) + "]"
 
 
+def fmt_big(es):
+    return fmt_es(es) if len(es) <= 12 else "a %d-entry file %s ... %s" % (len(es), fmt_es(es[:3])[:-1], fmt_es(es[-2:])[1:])
+
+
+def clip(o, n=260):
+    o = o.strip()
+    return o if len(o) <= n else o[:n] + " ... (%d numbers)" % len(o.split())
+
+
+SAFEDEL = ".deleted"    # the site configuration FN_SAFEDEL is the first sd bytes of it: sd = 2 the default ".d", sd = 8 ".deleted"
+BS = B + 3395           # base creation time of the files whose names differ only in the leading time digits
+
+
+def cfg(sd, line):
+    """the case 'op|...' under FN_SAFEDEL of sd bytes: '20 sd op|...'"""
+    op, rest = line.split("|", 1)
+    return "20 %d %s|%s" % (sd, op, rest)
+
+
+def patterns_step(n, step, nm):
+    """patterns(n) with creation times `step` seconds apart and ONE suffix for all entries of different seconds:
+    M.<BS + j*step>.A.<nm> - with step 10000 the names differ only in bytes 2..7; entries of one second: nm, nm+1, ..."""
+    for pat, es in patterns(n):
+        times = sorted({e[0] for e in es if valid(e)})
+        out, prev, run = [], None, 0
+        for e in es:
+            if not valid(e):
+                out.append(e)
+                continue
+            t = BS + times.index(e[0]) * step
+            run = run + 1 if t == prev else 0
+            prev = t
+            out.append((t, nm + run))
+        yield pat, out
+
+
+def cursors_step(es, step):
+    """cursors(es) + for every entry the same suffix at a time 1, 2 steps before / after it (a name that differs from the
+    entry's only in the leading time digits), when that is not an entry itself"""
+    out = cursors(es)
+    have = {e for e in es if valid(e)}
+    seen = set()
+    for e in es:
+        if valid(e):
+            for d in (-2, -1, 1, 2):
+                cur = (e[0] + d * step, e[1])
+                if cur not in have and cur not in seen and 0 <= cur[0] < 2 ** 31:
+                    seen.add(cur)
+                    out.append((cur[0], cur[1], "same-suffix-other-time"))
+    return out
+
+
+def ref_records(es, start, cnt, desc):
+    """cmsys.GetRecords(start, cnt, desc) as a linear reader of the file: 'status (position t nm)...'"""
+    n = len(es)
+    if start < 1:
+        return "3 4"
+    idxs = [] if start > n else (list(range(start, 0, -1))[:cnt] if desc else list(range(start, n + 1))[:cnt])
+    toks = ["0"]
+    for i in idxs:
+        e = es[i - 1]
+        toks += [str(i)] + ([str(e[0]), str(e[1])] if valid(e) else ["-1", "0"])
+    return " ".join(toks)
+
+
 def main():
     c = vf.Check("C06")
     rng = c.rng
@@ -316,24 +381,25 @@ def main():
         order = list(range(n, 0, -1)) if desc else list(range(1, n + 1))
         return any(not valid(es[order[j] - 1]) for j in range(k, n, k))
 
-    def judge_walk(op, what, lines, outs, meta):
+    def judge_walk(op, what, lines, outs, meta, note=""):
         for l, o, (es, k, desc) in zip(lines, outs, meta):
             st = o.split()[0]
             if st in ("1", "2"):
                 zero = any(e == ("x", -2) for e in es)
                 key = "%s-%s%s" % (what, "crash" if st == "1" else "hang", "-zeroed-entry" if (zero and st == "1") else "")
-                c.violation(key, "%s page walk (page size %d, %s) over %s %s" % (what, k, "desc" if desc else "asc", fmt_es(es), "panics" if st == "1" else "does not terminate"),
+                c.violation(key, "%s page walk%s (page size %d, %s) over %s %s" % (what, note, k, "desc" if desc else "asc", fmt_big(es), "panics" if st == "1" else "does not terminate"),
                             {"cases": [l], "got": o})
                 continue
             exp = walk_expect(es, k, desc)
-            c.nontrivial((what, fmt_es(es), k, desc))
+            c.nontrivial((what + note, fmt_es(es), k, desc))
             if o.strip() != exp:
                 if boundary_invalid(es, k, desc):
                     key = "deleted-page-boundary"
                 else:
                     key = "%s-page-walk" % what
-                c.violation(key, "%s page walk (page size %d, %s) over %s: [status end pages visited...] = %s, every entry once in order would be %s" % (
-                    what, k, "desc" if desc else "asc", fmt_es(es), o, exp), {"cases": [l], "expected": exp, "got": o})
+                c.violation(key, "%s page walk%s (page size %d, %s) over %s: [status end pages visited...] = %s, every entry once in order would be %s%s" % (
+                    what, note, k, "desc" if desc else "asc", fmt_big(es), clip(o), clip(exp),
+                    "  (end 90 = a listed summary is not the record stored at its position)" if o.split()[1:2] == ["90"] else ""), {"cases": [l], "expected": exp, "got": o})
 
     lines, meta = [], []
     for pat, es in files:
@@ -627,17 +693,225 @@ def main():
             key = "deleted-page-boundary" if boundary_invalid(es, k, desc) else "cmsys-page-walk"
             c.violation(key, "page walk over a %d-entry file, page size %d, %s: ended %s after visiting %d entries" % (
                 len(es), k, "desc" if desc else "asc", " ".join(o.split()[:3]), len(o.split()) - 3), {"cases": [l], "expected": exp[:200], "got": o[:200]})
-    c.cov["distribution"]["index files"] = len(files) + nfiles
+    # ---------------------------------------------------------------- the name comparison itself, under every delete-prefix length
+    def sdname(sd):
+        return 'FN_SAFEDEL="%s"' % SAFEDEL[:sd]
+
+    etimes = [BS, BS + 1, BS + 10000, BS + 10 ** 5, BS + 10 ** 7, BS + 10 ** 8, BS - 10 ** 9]
+    enames = [(t, nm) for t in etimes for nm in (7, 8, ABSENT)]
+    lines, meta = [], []
+    for sd in range(2, 9):
+        for a in enames:
+            for b in enames:
+                lines.append("20 %d 21|%d %d %d %d %d" % (sd, sd, a[0], a[1], b[0], b[1]))
+                meta.append((sd, a, b))
+    io, mo = both(lines, "ptttype.Filename_t.Eq (every FN_SAFEDEL prefix length)")
+    c.count(len(lines), "name-eq")
+    for l, o, (sd, a, b) in zip(lines, io, meta):
+        exp = "0 %d" % (1 if a == b else 0)
+        c.nontrivial(("eq", sd, a, b))
+        if o.strip() != exp:
+            c.violation("name-eq-config", "Filename_t.Eq(M.%010d.A.%03X, M.%010d.A.%03X) under %s = %s; these are %s names (expected %s)" % (
+                a[0], a[1], b[0], b[1], sdname(sd), o, "equal" if a == b else "two different", exp), {"cases": [l], "expected": exp, "got": o})
+
+    # ---------------------------------------------------------------- lookups and walks under the site configurations FN_SAFEDEL=".d" / ".deleted"
+    # the same enumerations as above (smaller n), over files whose names differ only in the leading digits of the time
+    # (bytes 2..7 with 10000 seconds between entries) and share one suffix, each case once per configuration
+    NCFG = 5 if thorough else 4
+    if thorough:
+        combos = [(sd, st) for sd in range(2, 9) for st in (10000, 10 ** 6, 10 ** 8)]
+    else:
+        combos = [(2, 10000), (8, 10000), (8, 10 ** 7), (rng.choice([3, 4, 5, 6, 7]), 10 ** 8)]
+    ncfgfiles = 0
+    for sd, step in combos:
+        sfiles = []
+        for n in range(0, NCFG + 1):
+            sfiles.extend(patterns_step(n, step, 7))
+        if sd == 8 and step == 10000:
+            sfiles.extend((pat, es) for pat, es in files if len(es) <= 3)   # and the files of the enumerations above
+        ncfgfiles += len(sfiles)
+        note = " under %s" % sdname(sd)
+        # FindRecordStartIdx
+        lines, meta = [], []
+        for pat, es in sfiles:
+            for (T, name, cls) in cursors_step(es, step):
+                for desc in (True, False):
+                    lines.append(cfg(sd, find_line(es, len(es), T, name, desc)))
+                    meta.append((es, T, name, desc, cls))
+        io, mo = both(lines, "cmsys.FindRecordStartIdx" + note)
+        c.count(len(lines), "find-config")
+        crash_or_hang(lines, io, "FindRecordStartIdx")
+        for l, o, (es, T, name, desc, cls) in zip(lines, io, meta):
+            if o.split()[0] in ("1", "2"):
+                continue
+            want = ref_find(es, T, name, desc)
+            exp = "0 %d" % want if want is not None else "3 1"
+            c.nontrivial(("find", sd, fmt_es(es), T, name, desc))
+            if o.strip() != exp:
+                first = [e[0] for e in es if valid(e)]
+                key = "find-asc-cursor-below-first" if (not desc and first and T < first[0]) else "find-config-%s-%s" % ("desc" if desc else "asc", cls)
+                c.violation(key, "FindRecordStartIdx(%s, T=%d%s, %s)%s = %s, linear scan says %s" % (
+                    fmt_es(es), T - B, "" if name is None else "/%d" % name, "desc" if desc else "asc", note, o, exp), {"cases": [l], "expected": exp, "got": o})
+        # GetRecord: found at its position iff an entry carries exactly that name
+        lines, meta = [], []
+        for pat, es in sfiles:
+            for (T, nm, cls) in cursors_step(es, step):
+                if nm is not None:
+                    lines.append(cfg(sd, "2|%s|%d %d %d" % (entries_wire(es), len(es), T, nm)))
+                    meta.append((es, T, nm, cls))
+        io, mo = both(lines, "cmsys.GetRecord" + note)
+        c.count(len(lines), "getrecord-config")
+        crash_or_hang(lines, io, "GetRecord")
+        for l, o, (es, T, nm, cls) in zip(lines, io, meta):
+            pos = [i + 1 for i, e in enumerate(es) if valid(e) and e == (T, nm)]
+            exp = "0 %d" % pos[0] if pos else "3 1"
+            c.nontrivial(("get", sd, fmt_es(es), T, nm))
+            if o.split()[0] not in ("1", "2") and o.strip() != exp:
+                c.violation("getrecord-config", "GetRecord(%s, M.%010d.A.%03X = %d/%d [%s])%s = %s, a linear scan for that name says %s  "
+                            "(0 <position> -99 = found at <position>, but the header returned carries another name)" % (
+                                fmt_es(es), T, nm, T - B, nm, cls, note, o, exp), {"cases": [l], "expected": exp, "got": o})
+        # page walks (cmsys composition and bbs.LoadGeneralArticles) and single bbs pages with client-supplied cursors
+        for op, what in ((4, "cmsys"), (5, "bbs")):
+            lines, meta = [], []
+            for pat, es in sfiles:
+                for k in range(1, len(es) + 2):
+                    for desc in (True, False):
+                        lines.append(cfg(sd, "%d|%s|%d %d" % (op, entries_wire(es), k, 1 if desc else 0)))
+                        meta.append((es, k, desc))
+            io, mo = both(lines, "page walk (%s)%s" % (what, note))
+            c.count(len(lines), "walk-%s-config" % what)
+            judge_walk(op, what, lines, io, meta, note)
+        lines, meta = [], []
+        for pat, es in sfiles:
+            n = len(es)
+            curs = [(None, "none")] + [((T, nm), cls) for (T, nm, cls) in cursors_step(es, step) if nm is not None]
+            for cur, cls in curs:
+                for k in sorted({1, 2, n + 1}):
+                    for desc in (True, False):
+                        lines.append(cfg(sd, "7|%s|%s %d %d" % (entries_wire(es), "0 0 0" if cur is None else "1 %d %d" % cur, k, 1 if desc else 0)))
+                        meta.append((es, cur, k, desc, cls))
+        io, mo = both(lines, "bbs.LoadGeneralArticles(client cursor)" + note)
+        c.count(len(lines), "bbs-cursor-config")
+        crash_or_hang(lines, io, "bbs.LoadGeneralArticles")
+        for l, o, (es, cur, k, desc, cls0) in zip(lines, io, meta):
+            if o.split()[0] in ("1", "2"):
+                continue
+            exp = ref_bbs_page(es, cur, k, desc)
+            cls = cursor_class(es, cur, desc)
+            c.nontrivial(("bbscur", sd, fmt_es(es), cur, k, desc))
+            if o.strip() != exp:
+                first = [e[0] for e in es if valid(e)]
+                if cur is not None and not desc and first and cur[0] < first[0]:
+                    key = "find-asc-cursor-below-first"
+                elif exp.startswith("0") and exp.split()[3] == "-2" and o.split()[:3] == exp.split()[:3]:
+                    key = "deleted-page-boundary"
+                else:
+                    key = "bbs-cursor-config-%s-%s" % ("desc" if desc else "asc", cls)
+                c.violation(key, "bbs.LoadGeneralArticles(%s, cursor %s [%s], page size %d, %s)%s = %s; the linear scan gives %s" % (
+                    fmt_es(es), "none" if cur is None else "%d/%d" % (cur[0] - B, cur[1]), cls, k, "desc" if desc else "asc", note, o.strip(), exp),
+                    {"cases": [l], "expected": exp, "got": o})
+    c.sample({"op": "GetRecord under a site configuration", "case": lines[-1][:200], "impl": io[-1]})
+    c.cov["exhaustive_parts"].append("Filename_t.Eq on %d name pairs under every FN_SAFEDEL prefix length 2..8; FindRecordStartIdx / GetRecord / both page walks / "
+                                     "bbs.LoadGeneralArticles(cursor) over every file of n <= %d entries whose names differ only in the leading time digits, "
+                                     "under (prefix length, seconds between entries) in %s" % (len(enames) ** 2, NCFG, combos))
+
+    # ---------------------------------------------------------------- pages of 128 and more entries (several read blocks in one GetRecords call)
+    # every summary is looked at only after the call has returned (the driver keeps what GetRecords / LoadGeneralArticles
+    # handed out and compares it with the record stored at that position)
+    bigs = []
+    for n in ((129, 130, 256, 257, 300, 385, 513, 1000) if thorough else (130, 300, 385)):
+        es = [(B + (i // 3) * 7, i) for i in range(n)]                     # a busy board: three articles per second
+        bigs.append(es)
+        es2 = list(es)
+        for i in rng.sample(range(n), max(2, n // 40)):                     # the same with delete-marked entries anywhere
+            es2[i] = ("x", rng.choice(KINDS[:2]))
+        bigs.append(es2)
+    nbig = len(bigs)
+    bix = {id(es): i for i, es in enumerate(bigs)}
+    lines, meta = [], []
+    for es in bigs:
+        n = len(es)
+        for start in sorted({1, 2, 128, 129, n - 128, n - 1, n}):
+            for cnt in sorted({127, 128, 129, 130, 200, 256, 257, 258, n, n + 1}):
+                for desc in (True, False):
+                    lines.append("3|%s|%d %d %d" % (entries_wire(es), start, cnt, 1 if desc else 0))
+                    meta.append((es, start, cnt, desc))
+    lines += [cfg(8, l) for l in lines[:40]]
+    meta += meta[:40]
+    io, mo = both(lines, "cmsys.GetRecords (128 and more records in one call)")
+    c.count(len(lines), "getrecords-large")
+    crash_or_hang(lines, io, "GetRecords")
+    for l, o, (es, start, cnt, desc) in zip(lines, io, meta):
+        exp = ref_records(es, start, cnt, desc)
+        c.nontrivial(("getrecords-large", bix[id(es)], start, cnt, desc, l[:2]))
+        if o.split()[0] not in ("1", "2") and o.strip() != exp:
+            got, want = o.split()[1:], exp.split()[1:]
+            bad = [j // 3 for j in range(0, min(len(got), len(want)), 3) if got[j:j + 3] != want[j:j + 3]]
+            c.violation("getrecords-large", "GetRecords(%s, start=%d, n=%d, %s): %d summaries, %d expected; %s  (looked at after the call returned)" % (
+                fmt_big(es), start, cnt, "desc" if desc else "asc", len(got) // 3, len(want) // 3,
+                "the %d-th summary [position t nm] is %s, the record stored there is %s (%d summaries differ from their records)" % (
+                    bad[0] + 1, got[3 * bad[0]:3 * bad[0] + 3], want[3 * bad[0]:3 * bad[0] + 3], len(bad)) if bad else "count differs"),
+                {"cases": [l], "expected": exp, "got": o})
+    for op, what in ((4, "cmsys"), (5, "bbs")):
+        lines, meta = [], []
+        for es in bigs:
+            n = len(es)
+            for k in sorted({127, 128, 129, 150, 255, 256, 257, n - 1, n, n + 1}):
+                for desc in (True, False):
+                    lines.append("%d|%s|%d %d" % (op, entries_wire(es), k, 1 if desc else 0))
+                    meta.append((es, k, desc))
+        lines += [cfg(8, l) for l in lines[:20]]
+        meta += meta[:20]
+        io, mo = both(lines, "page walk (%s, page sizes of 128 and more)" % what)
+        c.count(len(lines), "walk-%s-large" % what)
+        judge_walk(op, what, lines, io, meta, " with a large page")
+    lines, meta = [], []
+    for es in bigs:
+        n = len(es)
+        vs = [e for e in es if valid(e)]
+        curs = [None, vs[0], vs[1], vs[len(vs) // 2], vs[-2], vs[-1], (vs[len(vs) // 2][0], ABSENT), (vs[0][0] - 1, ABSENT), (vs[-1][0] + 1, ABSENT)]
+        for cur in curs:
+            for k in (127, 128, 129, 200, n):
+                for desc in (True, False):
+                    lines.append("7|%s|%s %d %d" % (entries_wire(es), "0 0 0" if cur is None else "1 %d %d" % cur, k, 1 if desc else 0))
+                    meta.append((es, cur, k, desc))
+    io, mo = both(lines, "bbs.LoadGeneralArticles(client cursor, page sizes of 128 and more)")
+    c.count(len(lines), "bbs-cursor-large")
+    crash_or_hang(lines, io, "bbs.LoadGeneralArticles")
+    for l, o, (es, cur, k, desc) in zip(lines, io, meta):
+        if o.split()[0] in ("1", "2"):
+            continue
+        exp = ref_bbs_page(es, cur, k, desc)
+        cls = cursor_class(es, cur, desc)
+        c.nontrivial(("bbscur-large", bix[id(es)], cur, k, desc))
+        if o.strip() != exp:
+            if exp.startswith("0") and exp.split()[3] == "-2" and o.split()[:3] == exp.split()[:3]:
+                key = "deleted-page-boundary"
+            else:
+                key = "bbs-cursor-large-%s-%s" % ("desc" if desc else "asc", cls)
+            c.violation(key, "bbs.LoadGeneralArticles(%s, cursor %s [%s], page size %d, %s) = %s; the linear scan gives %s  "
+                             "(3 90 = a listed summary is not the record stored at its position)" % (
+                fmt_big(es), "none" if cur is None else "%d/%d" % (cur[0] - B, cur[1]), cls, k, "desc" if desc else "asc", o.strip(), exp),
+                {"cases": [l], "expected": exp, "got": o})
+    c.sample({"op": "bbs.LoadGeneralArticles, page of 128 and more", "file entries": len(meta[-1][0]), "page_size": meta[-1][2], "desc": meta[-1][3], "impl": io[-1]})
+    c.cov["exhaustive_parts"].append("GetRecords counts / page sizes 127..258, n-1, n, n+1 over files of %s entries (with and without unparsable entries), "
+                                     "both directions, starts at both ends and at the block borders" % sorted({len(es) for es in bigs}))
+    c.cov["distribution"]["index files"] = len(files) + nfiles + nbig + ncfgfiles
 
     c.finish(rule="files: complete enumeration of {unparsable, equal time, later time}^n for n <= %d (three kinds of unparsable entry) + %d PRNG(seed) files of 8..2000 entries; "
                   "cursors: every present (time,name), an absent name and a name-less cursor at every time, every gap, below first, above last; both directions; "
                   "page sizes 1..n+1; bbs.LoadGeneralArticles called with every cursor class (client-supplied cursors) on all files of n <= %d entries, and walked on its own cursors "
-                  "while the cursor's entry (alone / with its neighbours / with everything after it in the listing direction) or any single entry is deleted between pages; a case is non-trivial if it is a distinct (file, cursor, direction) / (file, page size, direction) that returned" % (NMAX, nfiles, NCUR_BBS),
+                  "while the cursor's entry (alone / with its neighbours / with everything after it in the listing direction) or any single entry is deleted between pages; "
+                  "site configurations: the lookups, both walks and the bbs cursor calls again under FN_SAFEDEL=\".d\" and \".deleted\" (and one more prefix length / all of 2..8 in the thorough tier) over every file of n <= %d entries "
+                  "whose names differ only in the leading digits of the time (10^4 .. 10^8 seconds apart, one shared suffix), with cursors / looked-up names of the same shape, and Filename_t.Eq itself under every prefix length; "
+                  "large pages: GetRecords counts and page sizes 127..258, n-1, n, n+1 over %d files of 130..385 (thorough: ..1000) entries, every summary compared with the stored record after the call returned; a case is non-trivial if it is a distinct (configuration, file, cursor, direction) / (configuration, file, page size, direction) that returned" % (NMAX, nfiles, NCUR_BBS, NCFG, nbig),
              assumptions=["cursor time and cursor file name are consistent (every caller in ptt/bbs derives both from one file name; DeserializeArticleIdxStr enforces it)",
                           "creation times in [0, 2^31): Time4 subtraction is modelled with wrap32",
                           "file names within one index are unique (Stampfile creates them with O_EXCL)",
                           "a deletion overwrites the index entry in place with a delete-marked one (cmsys.SubstituteRecord, as DeleteArticles does); the index is not compacted between pages",
                           "the index file is quiescent during a lookup; os file I/O, strconv.Atoi and encoding/binary are exercised, not verified",
+                          "of the site configuration only FN_SAFEDEL is varied (set through its configuration key and ptttype.InitConfig()): prefix lengths 2 and 8 always, 3..7 sampled (thorough: all); every other key keeps its default",
+                          "GetRecords is exercised up to 1000 records in one call (quick: 386); larger counts rest on C06_getrecords_eq_scan and the model correspondence only",
                           "bbs-level cursor text round trip (Serialize/DeserializeArticleIdxStr via the article id of C13) is validated by the bbs walk correspondence, proved only in C13"])
 
 
